@@ -83,7 +83,9 @@ func pfTok(s string) string {
 var assignTexts = []string{"", "0", "5", "-5", "+5", "007", "127", "128", "-128", "-129", "255", "256", "32767", "65536", "2147483647", "2147483648",
 	"9223372036854775807", "9223372036854775808", "-9223372036854775808", "18446744073709551615", "18446744073709551616",
 	"1.5", "-0.25", ".5", "5.", "1e2", "1E-2", "1e", "e5", "0x10", "1_000", " 5", "5 ", "true", "false", "True", "abc", "nil", "١٢", "1.5.2", "--5", "+", "-",
-	"3.14159", "1e400", "Inf", "NaN", "12a", "0.0009765625", "1048576.5"}
+	"3.14159", "1e400", "Inf", "NaN", "12a", "0.0009765625", "1048576.5",
+	// exact in the fixed-point oracle and in float64, not representable in float32
+	"16777217", "-33554435", "268435457.25", "4294967297.5", "1099511627777", "-0.000000953674316"}
 
 // GenSrc proposes a source of the given kind.
 func GenSrc(r *Rng, kind string) SrcSpec {
